@@ -4,7 +4,6 @@ package vaxis
 
 import (
 	"fmt"
-	"io"
 	"os/signal"
 	"syscall"
 	"time"
@@ -47,7 +46,7 @@ func (vx *Vaxis) reportWinsize() (Resize, error) {
 		case <-vx.chSizeDone:
 		default:
 		}
-		io.WriteString(vx.console, textAreaSize)
+		vx.tw.WriteStringLocked(textAreaSize)
 		deadline := time.NewTimer(100 * time.Millisecond)
 		select {
 		case <-deadline.C:
